@@ -299,3 +299,8 @@ pub assume_specification<T: Default, E>[ Result::<T, E>::unwrap_or_default ](x: 
     ensures x is Ok ==> o == x->Ok_0;
 /// typed `None` for the R8 search loop (lets rustc infer Option<&T> from the searched Vec)
 pub fn none_of<T>(v: &Vec<T>) -> (r: Option<&T>) ensures r is None { None }
+#[verifier::external]
+impl core::fmt::Display for Addr { fn fmt(&self, f: &mut core::fmt::Formatter<'_>) -> core::fmt::Result { write!(f, "{}", self.0) } }
+/// stands for a `format!(..)` whose text no clause specifies (drop D5)
+#[verifier::external_body]
+pub fn opaque_text() -> (r: String) { unimplemented!() }
